@@ -180,8 +180,12 @@ def check_stream_history(hist, submits, run_count):
                 v("harness", "two future events for %r" % (ev[1],))
             futures[ev[1]] = (i,) + tuple(ev[2:])
         elif k == "lost-response":
-            v("lost-response", "server emitted the terminal %s for job %r on a live stream but the future was not done "
-                               "within the bounded number of event-loop turns" % (ev[2], ev[1]))
+            if ev[2].startswith("done"):
+                v("lost-response", "job %r was in flight at %s() but its future was not done within the bounded number of "
+                                   "event-loop turns" % (ev[1], ev[2].split()[-1]))
+            else:
+                v("lost-response", "server emitted the terminal response (%s) for job %r on a live stream but the future was "
+                                   "not done within the bounded number of event-loop turns" % (ev[2], ev[1]))
         elif k == "missing-request":
             v("missing-request", "job %r: the protocol prescribes a %s request, none arrived within the bounded number "
                                  "of event-loop turns" % (ev[1], ev[2]))
@@ -196,9 +200,11 @@ def check_stream_history(hist, submits, run_count):
         expect = ("send", CPJ)
         final = None
         voided = False
+        derailed = False
         for n, (i, mid, kind) in enumerate(rs):
             if expect[0] != "send":
                 v("request-after-terminal", "job %r: request %s sent although the previous outcome was terminal (%r)" % (job, kind, expect))
+                derailed = True
                 break
             if kind != expect[1]:
                 prev = rs[n - 1][2] if n else None
@@ -208,6 +214,7 @@ def check_stream_history(hist, submits, run_count):
                     mech = "retry-after-break-recreates"
                 v(mech, "job %r: after %s answered by %r the protocol prescribes %s, the client sent %s"
                   % (job, prev, prev_out, expect[1], kind))
+                derailed = True
                 break
             o = outcome.get(mid)
             if o is None or o[1][0] == "void":
@@ -225,8 +232,10 @@ def check_stream_history(hist, submits, run_count):
             v("harness", "no future event for %r" % (job,))
             continue
         _, fkind, fdetail, ncb = fut
-        if ncb != 1:
+        if ncb != 1 and fkind != "timeout":
             v("future-resolved-%d-times" % ncb, "done-callback of the submit future of %r ran %d times" % (job, ncb))
+        if derailed:
+            continue  # the client left the protocol; what happens afterwards is a consequence, not a second finding
         if fkind == "timeout":
             continue  # the brain's logical verdicts (lost-response / missing-request) decide; wall clock never does
         stopped = bool(stopped_at) and rs[0][0] < stopped_at[-1]
